@@ -5,7 +5,7 @@
      (cli-diff estr ARGS SRC SRC REPORT)
      (cli-validate estr ARGS tty (SRC...) SRC)
      (cli-merge estr ARGS tty (SRC...) SRC MERGE2-TABLE FLOW-TABLE JVIEW-TABLE)
-     (cli-set ARGS tty valfile_ok RAW1 GATHER BUILT SAVETO-TABLE CHANGE-TABLE FLOW-TABLE)
+     (cli-set ARGS tty valfile_ok RAW1 GATHER BUILT SAVETO-TABLE CHANGE-TABLE FLOW-TABLE DUMP-TABLE JSONVIEW-TABLE YAMLVIEW-TABLE CHANGE-VERB-TABLE)   valfile_ok = none | (some s<class the open raises>)
      (cli-paths estr ARGS tty (SRC...) SRC SEARCH-TABLE)
    Answer: (run STATUS (LINE...) (EFFECT...)) [+ (picked l r) for cli-diff] *)
 open Model
@@ -75,9 +75,11 @@ let line_s = function
   | OInvalid (f, i) -> L [A "invalid"; s f; nat_s i]
   | OPath (p, j) -> L [A "path"; s p; (match j with None -> A "none" | Some i -> L [A "some"; nat_s i])]
   | ODump (j, ds) -> L [A "dump"; bs j; L (List.map data_class_s ds)]
+  | ODumpPartial -> A "dump-partial"
 let effect_s = function
   | EBackup -> A "backup"
   | EWrite (j, ds) -> L [A "write"; bs j; L (List.map data_class_s ds)]
+  | ERestore -> A "restored"
 let run_s (r : crun) : t =
   L [A "run"; status_s r.r_status; L (List.map line_s r.r_out); L (List.map effect_s r.r_fx)]
 
@@ -161,18 +163,19 @@ let handle (cmd : string) (args : t list) : t option =
       let a = { va_files = List.map (fun s0 -> s0.s_name) srcs; va_nostdin = bool_of_sym nostdin; va_noise = noise_of noise } in
       Some (run_s (val_main (nat_atom estr) a (bool_of_sym tty) srcs (source_of stdin_src)))
     | "cli-merge", [estr; L [A "args"; nostdin; noise; config; config_ok; output; output_exists; overwrite; overwrite_exists;
-                             backup; fmt; mode; ext]; tty; srcs; stdin_src; m2; fl; jv] ->
+                             backup; fmt; mode; ext; cfgerr]; tty; srcs; stdin_src; m2; fl; jv] ->
       let a = { ma_nostdin = bool_of_sym nostdin; ma_noise = noise_of noise; ma_config = bool_of_sym config;
                 ma_config_ok = bool_of_sym config_ok; ma_output = str_atom output; ma_output_exists = bool_of_sym output_exists;
                 ma_overwrite = str_atom overwrite; ma_overwrite_exists = bool_of_sym overwrite_exists;
-                ma_backup = bool_of_sym backup; ma_format = docfmt_of fmt; ma_mode = mode_of mode; ma_out_ext = str_atom ext } in
+                ma_backup = bool_of_sym backup; ma_format = docfmt_of fmt; ma_mode = mode_of mode; ma_out_ext = str_atom ext;
+                ma_config_err = opt_of str_atom cfgerr } in
       let merge2 = table2 "merge2" (function L [e; d] -> (opt_of ufam_of e, nat_atom d) | x -> failwith ("bad merge2 " ^ to_string x)) m2 in
       let flow = table1 "flow" bool_of_sym fl in
       let jview = table1 "jview" nat_atom jv in
       Some (run_s (cli_merge_main merge2 flow jview (nat_atom estr) a (bool_of_sym tty) (list_of source_of srcs) (source_of stdin_src)))
     | "cli-set", [L [A "args"; file; nostdin; noise; value; aliasof; mergekey; valfile; stdin; random; null; delete; anchor; tag;
                      check; saveto; saveto_same; mustexist; backup; eyamlcrypt; priv; priv_ok; pub; pub_ok; rflen; jsonext];
-                  tty; valfile_ok; load; gather; built; saveto_t; change_t; flow_t] ->
+                  tty; valfile_ok; load; gather; built; saveto_t; change_t; flow_t; dump_t; jview_t; yview_t; cverb_t] ->
       let b = bool_of_sym in
       let a = { sa_file = str_atom file; sa_nostdin = b nostdin; sa_noise = noise_of noise; sa_value = opt_of str_atom value;
                 sa_aliasof = b aliasof; sa_mergekey = b mergekey; sa_valfile = b valfile; sa_stdin = b stdin;
@@ -184,7 +187,12 @@ let handle (cmd : string) (args : t list) : t option =
       let saveto = table1 "saveto" (lres_of nat_atom) saveto_t in
       let change = table1 "change" change_res_of change_t in
       let flow = table1 "flow" bool_of_sym flow_t in
-      Some (run_s (cli_set_main (lres_of nat_atom built) saveto change flow a (b tty) (b valfile_ok) (raw1_of load)
+      let dump_fail = table1 "dump" (opt_of str_atom) dump_t in
+      let jsonview = table1 "jsonview" nat_atom jview_t in
+      let change_verb = table1 "change_verb" nat_atom cverb_t in
+      let yamlview = table1 "yamlview" nat_atom yview_t in
+      Some (run_s (cli_set_main (lres_of nat_atom built) saveto change flow dump_fail jsonview yamlview change_verb a (b tty)
+                     (opt_of str_atom valfile_ok) (raw1_of load)
                      (lres_of (list_of setnode_of) gather)))
     | "cli-paths", [estr; L [A "args"; search; except; nofile; noexpr; nopath; values; noescape; fslash; nostdin; priv; priv_ok; pub; pub_ok];
                     tty; srcs; stdin_src; st] ->
